@@ -346,6 +346,11 @@ def reducePt (c : CurveParams) : Pt → Pt
   | none => none
   | some (x, y) => some (fmod x c.p, fmod y c.p)
 
+/-- the integer a bignum of base-2⁶⁴ words holds -/
+def bnVal (b : BN) : Int :=
+  let value := Ossl.toIntLoop 64 b.d 0 1
+  if b.neg then -value else value
+
 /-- libcrypto played by the pure model of `Curve`: points are coordinate pairs, bignums base-2⁶⁴ words -/
 def pureLib (c : CurveParams) : LibCrypto where
   ulongBits := 64
@@ -353,13 +358,12 @@ def pureLib (c : CurveParams) : LibCrypto where
   EcPoint := Pt
   ecPointNew := none
   setAffine pt bx by_ :=
-    let x := Ossl.toIntLoop 64 bx.d 0 1
-    let y := Ossl.toIntLoop 64 by_.d 0 1
-    if bx.neg = false ∧ by_.neg = false ∧ x < c.p ∧ y < c.p ∧ containsXY c x y then (true, some (x, y))
+    let x := bnVal bx
+    let y := bnVal by_
+    if 0 ≤ x ∧ x < c.p ∧ 0 ≤ y ∧ y < c.p ∧ containsXY c x y then (true, some (x, y))
     else (false, pt)
   ecMul res pt bn :=
-    let e := if bn.neg then -(Ossl.toIntLoop 64 bn.d 0 1) else Ossl.toIntLoop 64 bn.d 0 1
-    match Curve.multiply c pt e with
+    match Curve.multiply c pt (bnVal bn) with
     | .ok R => (true, reducePt c R)
     | .error _ => (false, res)
   getAffine pt bx by_ :=
@@ -367,9 +371,7 @@ def pureLib (c : CurveParams) : LibCrypto where
     | none => (false, bx, by_)
     | some (x, y) => (true, bnOfInt x, bnOfInt y)
   modInverse a m :=
-    let av := if a.neg then -(Ossl.toIntLoop 64 a.d 0 1) else Ossl.toIntLoop 64 a.d 0 1
-    let mv := if m.neg then -(Ossl.toIntLoop 64 m.d 0 1) else Ossl.toIntLoop 64 m.d 0 1
-    match Curve.inverseMod av mv with
+    match Curve.inverseMod (bnVal a) (bnVal m) with
     | .ok r => some (bnOfInt r)
     | .error _ => none
 
